@@ -23,7 +23,8 @@ pub const MATCH_FN_NAME: &str = "__complgen_match";
 fn make_string_constant(s: &str) -> String {
     format!(
         r#""{}""#,
-        s.replace('\"', "\\\"")
+        s.replace('\\', "\\\\")
+            .replace('\"', "\\\"")
             .replace('`', "\\`")
             .replace('$', "\\$")
     )
